@@ -1,3 +1,3 @@
 From Coq Require Extraction ExtrOcamlBasic.
 From V Require Import Model.C11.
-Extraction "c11model.ml" class_fields class_funcs desugar_class run_class run_explicit run_class_dyn.
+Extraction "c11model.ml" class_fields class_funcs desugar_class run_class run_explicit run_class_dyn class_struct run2_class run2_explicit run2_dyn.
